@@ -175,8 +175,7 @@ func mustWrite(t *testing.T, n *node, m *model, r rowSpec, mode string) {
 	t.Helper()
 	r.Tags = normTags(r.Tags)
 	m.seq++
-	h := &hist{}
-	if err := h.applyRow(n, m, r, 0, mode); err != nil {
+	if err := applyRow(n, newWire(wireInvert), m, r, 0, mode); err != nil {
 		t.Fatal(err)
 	}
 }
@@ -353,8 +352,7 @@ func TestRegression_IDsReusedAfterCrashBetweenSyncAndNextSync(t *testing.T) {
 	}
 	rm := newModel(1)
 	rm.seq = 1
-	h := &hist{}
-	if err := h.applyRow(r, rm, rowSpec{NS: "ns", Name: "m1", Tags: []kvPair{{"host", "c"}}, Fields: []string{"f"}}, 0, "meta+index"); err != nil {
+	if err := applyRow(r, newWire(wireInvert), rm, rowSpec{NS: "ns", Name: "m1", Tags: []kvPair{{"host", "c"}}, Fields: []string{"f"}}, 0, "meta+index"); err != nil {
 		t.Fatal(err)
 	}
 	if err := checkAll(r, rm, false); err != nil {
